@@ -1227,10 +1227,51 @@ def attrs_iter_adaptor(c):
 def iter_adaptor(c):
     # total provided the closures and the underlying workspace iterator are panic-free and terminating: those
     # are analysed as entries of their own (escape), termination of MessageAttributesIter is rule C01-T3
+    m = re.search(r" as std::iter::Iterator>::(\w+)(::<.*>)?$", c.name)
+    op = m.group(1) if m else None
+    v = c.args[0] if c.args else None
+    if isinstance(v, Iter) and op in ("copied", "cloned", "rev", "peekable", "filter", "filter_map", "take", "skip", "take_while", "skip_while", "step_by",
+                                      "collect", "count", "enumerate"):
+        # adaptors over a sequence iterator with a known number of remaining items
+        for a in c.args[1:]:
+            c.escape(a)
+        for f_ in v.maps:
+            c.escape(f_)
+        if op in ("copied", "cloned", "rev", "peekable"):
+            return [(c.st, Iter(v.len, v.enumerated, v.kind, v.chunk, v.items, ()))]
+        if op == "enumerate":
+            return [(c.st, Iter(v.len, True, v.kind, v.chunk, v.items, ()))]
+        if op in ("filter", "filter_map", "take", "skip", "take_while", "skip_while", "step_by"):
+            n = c.it.fresh_num(c.st, 0, None, "nfilt")
+            c.st.sys.add_le(n.e, v.len)
+            return [(c.st, Iter(n.e, False, "attrs" if v.kind == "attrs" else "filtered", None, None, ()))]
+        if op == "count":
+            return [(c.st, Num(v.len))]
+        if op == "collect":
+            rt = c.ret_ty()
+            if rt.get("k") == "adt" and rt["path"] in ("std::vec::Vec", "smallvec::SmallVec", "std::string::String", "std::boxed::Box"):
+                if v.kind in ("filtered", "attrs") or v.maps:
+                    n = c.it.fresh_num(c.st, 0, None, "ncoll")
+                    c.st.sys.add_le(n.e, v.len)
+                    return [(c.st, Seq(n.e))]
+                return [(c.st, Seq(v.len, None, v.items if not v.maps else None))]
     for a in c.args:
         c.escape(a)
     c.havoc_mut_args()
     return [(c.st, c.top_ret())]
+
+
+@model(r"^std::array::iter::<impl std::iter::IntoIterator for \[.*; (\d+)\]>::into_iter$|^<\[.*; \d+\] as std::iter::IntoIterator>::into_iter$")
+def array_into_iter(c):
+    v = c.deref(c.args[0])
+    if isinstance(v, Seq):
+        return [(c.st, Iter(v.len, False, "vec", None, v.items))]
+    return [(c.st, c.top_ret())]
+
+
+@model(r"^<std::array::IntoIter<.*> as std::iter::Iterator>::next$")
+def array_iter_next(c):
+    return std_iter_next(c)
 
 
 @model(r"^<std::ops::Range<.*> as std::iter::Iterator>::next$")
